@@ -180,6 +180,13 @@ func (r *spaceRunner) run(b spaceBounds) {
 	r.stringFamily()
 	// (f) API call sequences in unusual orders
 	r.apiFamily()
+	// (g) regex patterns that stress the example generator
+	if w.Shard == 0 {
+		for _, t := range c18Extra {
+			r.bytesCase("regex", []byte(t))
+			w.S.Nontrivial++
+		}
+	}
 }
 
 // apiFamily: every sequence of <= 3 registration / query calls (repeated and late
